@@ -431,6 +431,8 @@ theorem RInv.step {s : State} (h : RInv s) (hi : Inv s) (e : Event) : RInv (step
   | bread =>
     simp only [Async.step, bread]
     (repeat' split) <;> exact h.of_same ⟨rfl, rfl, rfl, rfl, rfl, rfl, rfl, rfl, rfl, rfl, rfl⟩
+  | attachS => exact h.of_same ⟨rfl, rfl, rfl, rfl, rfl, rfl, rfl, rfl, rfl, rfl, rfl⟩
+  | bdrop => exact h.of_same ⟨rfl, rfl, rfl, rfl, rfl, rfl, rfl, rfl, rfl, rfl, rfl⟩
 
 theorem RInv.foldl {s : State} (h : RInv s) (hi : Inv s) (es : List Event) : RInv (es.foldl Async.step s) := by
   induction es generalizing s with
